@@ -20,7 +20,7 @@ RULE = ("Hypothesis draws TT specs of all value families (incl. rank_deficient, 
         "Non-trivial = a rank actually changed, or some rank >= 2 with an interior pivot; distinct by SHA-1 of the case (+ pivot).")
 TOLERANCES = ("||dense(Z)*2^p - dense(Y)||_F <= 64(d+sum r+max n) eps prod_k||G_k||_F (normwise QR backward error); Gram defect <= 64 eps r n; "
               "| ||Z[k]||_F 2^p - ||Y|| | <= same normwise bound; stabilised entries <= 2, pivot max modulus in [1,2)")
-ASSUMPTIONS = ["d >= 2", "finite cores outside the under/overflow regime (scales 2^+-30 per core)"]
+ASSUMPTIONS = ["d >= 2", "finite cores; per-core scales 2^+-30 in the bulk families, one core of 2^+-(520..900), or every core shifted by 2^+-(450..900) (the stabilised variant then; the plain variant only while the whole tensor is representable)"]
 
 
 def tolF(Y):
